@@ -265,14 +265,19 @@ func c02Invariants(sc qScenario, pre *c02Pre, imageDir string, imageMeta map[str
 				}
 			}
 		}
-		// I4
+		// I4: a recipient whose latest delivery happened in attempt n must not be re-sent once attempt n+1 had begun.
+		// (With two crashes the recovery run may itself legitimately re-send it; that re-send is then the latest delivery.)
+		latest := map[string]int{}
 		for n, rs := range pre.deliveredUpTo[m.ID] {
-			if pre.startedMax[m.ID] > n {
-				for _, r := range rs {
-					if after[m.ID][r] {
-						vs = append(vs, ev.Vf("I4:resent-after-later-attempt", "%s: recipient %s of %s was delivered in attempt %d, attempt %d had begun before the stop, and recovery re-sent it", where, r, m.ID, n, pre.startedMax[m.ID]))
-					}
+			for _, r := range rs {
+				if n > latest[r] {
+					latest[r] = n
 				}
+			}
+		}
+		for r, n := range latest {
+			if pre.startedMax[m.ID] > n && after[m.ID][r] {
+				vs = append(vs, ev.Vf("I4:resent-after-later-attempt", "%s: recipient %s of %s was delivered in attempt %d, attempt %d had begun before the stop, and recovery re-sent it", where, r, m.ID, n, pre.startedMax[m.ID]))
 			}
 		}
 	}
